@@ -137,6 +137,22 @@ func c15Check(r *vhlib.Run, m *vhlib.Model, data []byte, kind string) {
 	if accepted {
 		implObs = "A " + vhlib.Hex(content)
 	}
+	// what is accepted must not depend on how the source fragments its reads
+	for _, cap := range []int{7, 2} {
+		func() {
+			defer func() { recover() }()
+			acc2 := false
+			var c2 []byte
+			if xr, err := xflate.NewReader(&fragSeeker{B: data, Cap: cap}, nil); err == nil {
+				if out, err := ioutil.ReadAll(xr); err == nil {
+					acc2, c2 = true, out
+				}
+			}
+			if acc2 != accepted || !bytes.Equal(c2, content) {
+				r.Violate("acceptance-depends-on-source", fmt.Sprintf("bytes.Reader: accepted=%v (%d bytes); source returning at most %d bytes per Read: accepted=%v (%d bytes)", accepted, len(content), cap, acc2, len(c2)), replay)
+			}
+		}()
+	}
 	// model: class and content
 	mobs := m.Ask("x c15 " + vhlib.Hex(data))
 	mf := strings.Fields(mobs)
@@ -211,7 +227,7 @@ func runC15(r *vhlib.Run) {
 		valid := assemble(chunks, idxOpts{}, "XF\x00", meta.FinalStream)
 		c15Check(r, m, valid, "valid")
 		clone := func() []xchunk { return append([]xchunk{}, chunks...) }
-		for t := 0; t < 26; t++ {
+		for t := 0; t < 27; t++ {
 			cs := clone()
 			io_ := idxOpts{}
 			magic, fmode := "XF\x00", meta.FinalStream
@@ -323,6 +339,12 @@ func runC15(r *vhlib.Run) {
 				lc := xchunk{Comp: c, CSize: int64(len(c)), RSize: int64(len(payload) + j)}
 				at := rng.Intn(len(cs) + 1)
 				cs = append(cs[:at:at], append([]xchunk{lc}, cs[at:]...)...)
+			case 26: // final stored block swallowing the end block, chunk tail only PARTLY a sync marker
+				kind = "final-stored-overrun-partial-sync"
+				tail := [][]byte{{0xff, 0xff}, {0x00, 0xff, 0xff}, {0xab, 0xcd, 0xff, 0xff}, {0xff}}[rng.Intn(4)]
+				payload := append(vhlib.RandBytes(rng, 1+rng.Intn(10)), tail...)
+				c := storedBlock(true, len(payload)+5, payload)
+				cs = append(cs, xchunk{Comp: c, CSize: int64(len(c)), RSize: int64(len(payload) + 5)})
 			case 23: // random mutation of the valid stream
 				kind = "mutated"
 				out = gen.Mutate(rng, valid)
@@ -364,16 +386,25 @@ func runC15(r *vhlib.Run) {
 				lc = xchunk{Comp: []byte{1, 0, 0, 0xff, 0xff}}
 			}
 			lc.CSize = int64(len(lc.Comp))
-			// insert the lying chunk as the first chunk of a segment (directly after the
-			// preceding index) half of the time, else anywhere
-			sgi := rng.Intn(nseg)
-			posn := 0
-			if target%2 == 1 {
-				posn = rng.Intn(len(segs[sgi]) + 1)
+			if rng.Intn(3) == 0 {
+				// a last segment made ONLY of chunks that claim raw size 0 (everything
+				// before it honest): the raw total is reached before that segment starts
+				segs = append(segs, []xchunk{lc})
+				if rng.Intn(2) == 0 {
+					segs[len(segs)-1] = append(segs[len(segs)-1], xchunk{Comp: []byte{0, 0, 0, 0xff, 0xff}, CSize: 5})
+				}
+			} else {
+				// insert the lying chunk as the first chunk of a segment (directly after the
+				// preceding index) half of the time, else anywhere
+				sgi := rng.Intn(nseg)
+				posn := 0
+				if target%2 == 1 {
+					posn = rng.Intn(len(segs[sgi]) + 1)
+				}
+				sg := append([]xchunk{}, segs[sgi][:posn]...)
+				sg = append(sg, lc)
+				segs[sgi] = append(sg, segs[sgi][posn:]...)
 			}
-			sg := append([]xchunk{}, segs[sgi][:posn]...)
-			sg = append(sg, lc)
-			segs[sgi] = append(sg, segs[sgi][posn:]...)
 			var out []byte
 			var back int64
 			for _, sg := range segs {
